@@ -120,7 +120,9 @@ func (g *gen) join() string {
 
 // ---- names ----
 var plainNames = []string{"cpu", "mem", "value", "host", "region", "usage_idle", "x", "y1", "_t", "db0", "rp0", "m", "Load", "aB"}
-var oddNames = []string{"select", "FROM", "time", "my db", "a.b", "q\"uote", "back\\slash", "1abc", "héllo", "日本", "tab\there", "new\nline", "with'single", "a-b", "", "ALL", "key", "😀", "x;y", "/re/", "$p", "--c", "duration", "inf"}
+var oddNames = []string{"select", "FROM", "time", "my db", "a.b", "q\"uote", "back\\slash", "1abc", "héllo", "日本", "tab\there", "new\nline", "with'single", "a-b", "", "ALL", "key", "😀", "x;y", "/re/", "$p", "--c", "duration", "inf",
+	// format directives, invisible and unusual code points, reserved system names
+	"usage%", "a%%", "%d", "%s%v", "\uFEFFbom", "a\uFEFFb", "nb\u00a0sp", "ls\u2028x", "zw\u200bx", "\uFFFD", "_series", "_fieldKeys", "_measurements", "_tagKeys", "_name"}
 
 func (g *gen) name() string {
 	if g.r.chance(3, 4) {
@@ -158,10 +160,11 @@ func (g *gen) str(s string) {
 	g.emit(lit)
 }
 
-var strPool = []string{"server01", "us-west", "", "it's", "a\\b", "line\nbreak", "\"dq\"", "2000-01-01T00:00:00Z", "héllo", "x;DROP", "--", "/*", "日本"}
+var strPool = []string{"server01", "us-west", "", "it's", "a\\b", "line\nbreak", "\"dq\"", "2000-01-01T00:00:00Z", "héllo", "x;DROP", "--", "/*", "日本",
+	"\uFEFF", "a\uFEFFb", "\uFFFD", "nb\u00a0sp", "ls\u2028\u2029", "zw\u200b", "%d%s", "100%", "2000-13-01", "2000-02-30T00:00:00Z", "2000-01-01 00:00:61", "2000-01-01T00:00:00+02:00"}
 
 // ---- expressions ----
-var rePool = []string{"cpu.*", "^a$", "a/b", "^(us|eu)-", "[a-z]+\\d", "", "x y", "é"}
+var rePool = []string{"cpu.*", "^a$", "a/b", "^(us|eu)-", "[a-z]+\\d", "", "x y", "é", "^((?i)abc)$", "^[^\\s\\S]$", "a\\\\b", "^(?i:x)y$"}
 
 func (g *gen) regexLit() *influxql.RegexLiteral {
 	p := pick(g.r, rePool)
@@ -1326,6 +1329,9 @@ func (g *gen) statement(kind string) influxql.Statement {
 	case "kill":
 		g.kw("KILL"); g.kw("QUERY")
 		s := &influxql.KillQueryStatement{QueryID: g.r.next() >> uint(g.r.intn(64))}
+		if g.r.chance(1, 3) { // the edges of the unsigned range: the id is a uint64, not an int
+			s.QueryID = pick(g.r, []uint64{1<<64 - 1, 1 << 63, 1<<63 - 1, 1<<63 + 1, 1<<64 - 2, 0, 1, 1<<32 - 1, 1 << 32})
+		}
 		g.emit(strconv.FormatUint(s.QueryID, 10))
 		if g.r.chance(1, 2) {
 			g.kw("ON")
